@@ -351,6 +351,30 @@ def adversarial_step(rng, g: gen.DocGen, doc: Node, docs) -> Step:
         return ReplaceStep(a, c, Slice.empty, rng.random() < 0.15)
     if r < 0.3:
         sl = g.slice_from(rng.choice(docs))
+        if rng.random() < 0.4:
+            # a single-spine open slice (cut inside ONE textblock of another document, so open 1/1 or deeper)
+            # put inside a textblock of this document: the two nodes are joined, and the joined node must be
+            # re-validated (marks / inline nodes the target forbids)
+            def textblocks(d):
+                out = []
+                d.descendants(lambda nd, pos, *_: out.append((pos, nd)) if nd.is_textblock else None)
+                return out
+            src = rng.choice(docs)
+            tbs, tbd = textblocks(src), textblocks(doc)
+            rich = [(p, nd) for p, nd in tbs if any(ch.marks or not ch.is_text for ch in nd.content.content)] or tbs
+            if rich and tbd:
+                ps, ns = rng.choice(rich)
+                x = rng.randint(ps + 1, ps + 1 + ns.content.size)
+                y = rng.randint(x, ps + 1 + ns.content.size)
+                pd, nd_ = rng.choice(tbd)
+                a = rng.randint(pd + 1, pd + 1 + nd_.content.size)
+                c = rng.randint(a, pd + 1 + nd_.content.size)
+                try:
+                    sl = src.slice(x, y, rng.random() < 0.3)
+                    if sl.open_start == 0 and x < y:
+                        sl = Slice(Fragment.from_(ns.cut(x - ps - 1, y - ps - 1)), 1, 1)
+                except ValueError:
+                    pass
         return ReplaceStep(a, c, sl, rng.random() < 0.25)
     if r < 0.45:
         # wrap-like / lift-like: a flat block range as the gap, a wrapper of an arbitrary type around it
